@@ -13,7 +13,7 @@
 //	once.Do(f) on sync.Once -> simhook.OnceDo(&once, f)
 //	net.Dial, net.DialTimeout, tls.Dial, (*net.Dialer).Dial, http.Get,
 //	filepath.Walk, os.ReadFile, os.Stat -> simhook shims that fall through when no simulation is live
-//	grpc.DialContext in package proxy -> zzGrpcDialContext (injected, tag verif)
+//	grpc.DialContext / NewClient / Dial in package proxy -> zzGrpcDialContext / zzGrpcNewClient / zzGrpcDial (injected, tag verif)
 package main
 
 import (
@@ -511,9 +511,18 @@ func (in *instr) exprs(n ast.Node) ast.Node {
 			}
 		case *ast.SelectorExpr:
 			if path, name, ok := in.pkgFunc(x); ok {
-				if path == "google.golang.org/grpc" && name == "DialContext" && in.p.PkgPath == modPath+"/proxy" {
-					c.Replace(ast.NewIdent("zzGrpcDialContext"))
-					return false
+				if path == "google.golang.org/grpc" && in.p.PkgPath == modPath+"/proxy" {
+					switch name {
+					case "DialContext":
+						c.Replace(ast.NewIdent("zzGrpcDialContext"))
+						return false
+					case "NewClient":
+						c.Replace(ast.NewIdent("zzGrpcNewClient"))
+						return false
+					case "Dial":
+						c.Replace(ast.NewIdent("zzGrpcDial"))
+						return false
+					}
 				}
 				if repl, ok := pkgFuncShims[path+"."+name]; ok && repl != "" {
 					c.Replace(hookSel(repl))
